@@ -283,7 +283,12 @@ fn check_unused_defines(
             0,
             &hierarchy);
 
-        if let None = maybe_decl
+        // A define is used by the constant of that name only
+        let is_constant = maybe_decl.map_or(
+            false,
+            |r| matches!(decls.symbols.get(r).kind, util::SymbolKind::Constant));
+
+        if !is_constant
         {
             report.error(
                 format!(
